@@ -439,7 +439,7 @@ func (e *Engine) callMaySend(c *ssa.CallCommon, seen map[*ssa.Function]bool, dep
 		_, isBuiltin := c.Value.(*ssa.Builtin)
 		return !isBuiltin // unknown function value: conservative
 	}
-	if intrinsicNames[callee.Name()] || strings.HasPrefix(callee.Name(), "spec_") {
+	if intrinsicNames[intrinsicName(callee)] || strings.HasPrefix(callee.Name(), "spec_") {
 		return false
 	}
 	if hn, ok := e.contracts[callee]; ok {
@@ -632,7 +632,7 @@ func (e *Engine) callMods(c *ssa.CallCommon, set map[string]bool, seen map[*ssa.
 		}
 		return
 	}
-	if intrinsicNames[callee.Name()] || strings.HasPrefix(callee.Name(), "spec_") {
+	if intrinsicNames[intrinsicName(callee)] || strings.HasPrefix(callee.Name(), "spec_") {
 		return
 	}
 	if hn, ok := e.contracts[callee]; ok {
